@@ -378,6 +378,76 @@ def generate(rng, tier):
         mt = str(M) if M < 1000 else "big"
         cases.append("srp %d %d %s %s #Zp%s-%s%s" % (M, v, ptext(P), ptext(Q), mt, shape, ":par" if par else ":int"))
 
+    # ---- 8. defective steps DEEP in the chain with non-unit leading coefficients: operands in x^k (even / sparse
+    #         structure: only every k-th subresultant is non-zero, so S_e_optimized runs at d < deg Q with
+    #         lc(S_d) not a unit and lc(S_{d-1})^n / lc(S_d)^n not exact), perturbed and mixed-parity variants;
+    #         over Z and over Z_p, both argument orders
+    def pcompose_xk(a, v, k):
+        r = {}
+        for key, c in a.items():
+            kk = list(key); kk[v] *= k
+            r[tuple(kk)] = c
+        return r
+
+    LCS_INT = [2, 3, -2, -3, 2, 4, 5, -1, 1, 6]
+
+    def lc_choice(params, par):
+        if par and params and rng.random() < 0.7:
+            u = rng.choice(params)
+            base = padd(pvar(u), pconst(rng.choice([1, -1, 2])))           # y+1, y-1, y+2
+            if rng.random() < 0.5:
+                base = pneg(base)                                            # -y-1 ...
+            if rng.random() < 0.3:
+                base = pmul(base, pconst(rng.choice([2, 3])))
+            return base
+        return pconst(rng.choice(LCS_INT))
+
+    def low_poly(v, params, deg, par):
+        """polynomial of degree deg in x_v with a chosen non-unit leading coefficient and small lower coefficients"""
+        r = pmul(lc_choice(params, par), pvar(v, deg))
+        for i in range(deg):
+            if rng.random() < 0.2:
+                continue
+            if par and rng.random() < 0.35:
+                c = rcoef(rng, params, "par")
+            else:
+                c = pconst(rng.choice([-3, -2, -1, 1, 2, 3, 0]))
+            r = padd(r, pmul(c, pvar(v, i)))
+        return r
+
+    for _ in range(260 if quick else 500):
+        v, params = setup()
+        par = rng.random() < 0.4
+        k = rng.choice([2, 2, 2, 3])
+        a, b = rng.randint(1, 3), rng.randint(1, 3)
+        shape = rng.choice(["xk", "xk", "xk", "xk-perturbed", "xk-mixed-parity", "xk-times-linear"])
+        p0 = low_poly(v, params, a, par); q0 = low_poly(v, params, b, par)
+        P = pcompose_xk(p0, v, k); Q = pcompose_xk(q0, v, k)
+        if shape == "xk-perturbed":           # one operand gets a low odd term: gaps at the top of the chain only
+            P = padd(P, pmul(pconst(rng.choice([1, -1, 2, 3])), pvar(v, rng.randint(1, k - 1))))
+        elif shape == "xk-mixed-parity":      # Q = x^r * q(x^k)
+            Q = pmul(Q, pvar(v, rng.randint(1, k - 1)))
+            Q = padd(Q, pconst(rng.choice([0, 0, 1, -2])))
+        elif shape == "xk-times-linear":      # common linear factor times even parts
+            L = padd(pmul(pconst(rng.choice([1, 2, -1])), pvar(v)), pconst(rng.choice([1, -1, 2])))
+            if rng.random() < 0.5:
+                P = pmul(P, L)
+            else:
+                P, Q = pmul(P, L), pmul(Q, L)
+        m, n = pdeg(P, v), pdeg(Q, v)
+        if m < 1 or n < 1 or m + n > (10 if par else (13 if not quick else 12)) or max(m, n) > 7:
+            continue
+        if rng.random() < 0.4:
+            P, Q = Q, P
+        kind = "par" if par else "int"
+        if rng.random() < 0.3:
+            M = rng.choice([3, 5, 7, 13, 101, 1000000007])
+            Pr, Qr = pred_mod(P, M), pred_mod(Q, M)
+            if pdeg(Pr, v) >= 1 and pdeg(Qr, v) >= 1:
+                cases.append("srp %d %d %s %s #Zp-%s%d:%s" % (M, v, ptext(P), ptext(Q), shape, k, kind))
+            continue
+        emit(v, params, P, Q, "%s%d:%s" % (shape, k, kind))
+
     # ---- 6. discriminant as polyxx computes it
     for _ in range(50 if quick else 200):
         v, params = setup()
